@@ -1,7 +1,7 @@
 (** C11 — Job status only moves forward and is always self-consistent (the per-status
     and per-call part; monotonicity over histories is in the job stream's monitor and in
     Props/C09.v [listed_forever], [timestamps_retained]). *)
-From Furiko Require Import Job.Core Proofs.JobP Props.C10.
+From Furiko Require Import Job.Core Job.Sync Job.World Proofs.JobP Proofs.HistoryP Props.C10.
 
 (** Exactly one of queueing / waiting / running / finished: the model's condition is a
     sum type, and the correspondence stream compares it with the four pointer fields of
@@ -57,3 +57,37 @@ Example c11_nonvacuous :
   let j := update_status_from_refs 100 ex_job in
   (j_state j, j_phase j) = (SFinished, PhSucceeded).
 Proof. vm_compute. reflexivity. Qed.
+
+
+(** * over histories
+    For every history of the one-Job world (reconcile passes against lagging caches, kubelet
+    transitions, foreign Pods, start / kill / delete by other actors, failing and conflicting
+    writes): the start time of the Job in the API, once set, never changes or disappears while
+    the Job exists; and no recorded task is ever dropped from its status (C09's theorem). *)
+Theorem c11_start_time_forever :
+  forall cfg j0 now ops1 ops2,
+    let w1 := jrun_world cfg (init_jworld j0 now) ops1 in
+    let w2 := jrun_world cfg w1 ops2 in
+    forall a1 a2 t, api_job w1 = Some a1 -> api_job w2 = Some a2 -> j_start a1 = Some t -> j_start a2 = Some t.
+Proof. exact start_time_forever. Qed.
+Print Assumptions c11_start_time_forever.
+
+Theorem c11_tasks_never_dropped_forever :
+  forall cfg j0 now ops1 ops2,
+    let w1 := jrun_world cfg (init_jworld j0 now) ops1 in
+    let w2 := jrun_world cfg w1 ops2 in
+    forall a1 a2, api_job w1 = Some a1 -> api_job w2 = Some a2 ->
+      forall n, In n (map tr_name (j_tasks a1)) -> In n (map tr_name (j_tasks a2)).
+Proof. intros cfg j0 now ops1 ops2. exact (proj1 (recorded_forever cfg j0 now ops1 ops2)). Qed.
+Print Assumptions c11_tasks_never_dropped_forever.
+
+Definition ex_hist_job : job :=
+  mkJob ["aaaaaa"%string] false AllSuccessful 2 0 false false None false None None false true None None
+        [] 0 0 None (CQueueing QNone) PhQueued SQueued.
+Example c11_history_nonvacuous :
+  let cfg := mkCfg (Some 900) (Some 900) (Some 3600) in
+  let w1 := jrun_world cfg (init_jworld ex_hist_job 100) [JSync; JStart; JAdvanceJob 5] in
+  let w2 := jrun_world cfg w1 [JSync; JAdvanceJob 5; JAdvancePods 5; JClock 150; JKill 140; JAdvanceJob 5; JSync; JAdvanceJob 5] in
+  option_map j_start (api_job w1) = Some (Some 100) /\
+  option_map (fun a => (j_start a, map tr_name (j_tasks a))) (api_job w2) = Some (Some 100, ["j-aaaaaa-0"%string]).
+Proof. vm_compute. split; reflexivity. Qed.
